@@ -12,8 +12,36 @@ def _mol_run(run, model, opts, nrel_quick, nrel_thorough, exhaustive=None, compl
     groups = {} if completeness else None
     seen = set()
 
+    import signal
+
+    class CaseTimeout(Exception):
+        pass
+
+    def _alarm(signum, frame):
+        raise CaseTimeout()
+
+    signal.signal(signal.SIGALRM, _alarm)
+    limit = 60   # seconds per molecule (all relistings included); legitimate cases of this stream take < 2 s
+
     def one(am, nrel_here):
-        facts = mol_checks.check_one(run, model, am, opts, nrel_here, rng, groups)
+        signal.alarm(limit)
+        try:
+            facts = mol_checks.check_one(run, model, am, opts, nrel_here, rng, groups)
+        except CaseTimeout:
+            # no result at all for a molecule of the property's domain: the property cannot hold on it
+            run.falsifier_hits.append({"property": run.prop, "what": "implementation did not return within %d s (no result to compare)" % limit,
+                                       "key": "timeout", "molecule": am.to_json(), "extra": None})
+            try:
+                model.p.kill()
+            except Exception:
+                pass
+            model.__init__()      # the line protocol may be out of step after an interrupted call
+            run.timeouts = getattr(run, "timeouts", 0) + 1
+            if run.timeouts >= 3:
+                raise RuntimeError("3 molecules exceeded the per-case time limit; stopping the stream")
+            return {}
+        finally:
+            signal.alarm(0)
         run.count("family:" + am.family.split(":")[0])
         run.count("atoms:%s" % ("1" if am.n() == 1 else "2-4" if am.n() <= 4 else "5-12" if am.n() <= 12 else "13-40" if am.n() <= 40 else ">40"))
         r = facts.get("rounds", "")
@@ -226,6 +254,15 @@ SPECS["C08"] = dict(fn=text_checks.c08, level="proof", components=["K1", "K2"], 
           "decoded from columns [10+8i,13+8i) and [14+8i,17+8i) for every i (lia over the regenerated column constants); M  CHG/RAD lines supersede codes; D/T keep mass 2/3; "
           "v2000_v3000_agree composes with the V3000 theorem.",
     note=NOTE_MODEL, design_ref="DESIGN.md 4.8", replay=_treplay)
+SPECS["C06"] = dict(fn=text_checks.c06, level="proof", components=["K1", "K2"], assumptions=TEXT_ASSUME,
+    rule="abstract molfile molecules x ~30 pair classes: two renderings differing in ONE class of non-identity data at a time (coordinates, bond types incl. aromatic/resonance "
+         "redistributions, charges, header/comment lines, file index values, each extra keyword/block, line endings, layout, V2000 vs V3000); TUCAN strings must be identical and equal to the "
+         "string of the bare identity data. non-trivial = >= 2 atoms and a pair that differs textually",
+    claim="Theorems C06 (24): tucan_ignores_payload (payload and bond-data types are arbitrary: charges, coordinates, bond orders are invisible to SameMol by typing, and tucan_invariant "
+          "does the rest), tucan_v3000_nonidentity / tucan_v2000_nonidentity / tucan_v2000_v3000 (two molfile texts of molecules with the same identity data -- any charges, coordinates, bond types, "
+          "header lines, index values, blank runs, continuation cuts, property order, foreign keywords, trailing blocks, CRLF/LF, either format -- are read and get the same string), "
+          "tucan_resonance_invariant; composition of C01 with the reader theorems of C07/C08; non-vacuity by evaluation with the brute-force oracle.",
+    note=NOTE_MODEL, design_ref="DESIGN.md 4.6", replay=_treplay)
 SPECS["C11"].update(
     claim="Theorems C11 (10): parsed graphs are well formed; norm_respell (every respelling in the inductive closure Respell -- tuple order/orientation/repetition, block order/split/merge, "
           "property order, renumbering within element blocks -- has the same normal form, via SemEq and tucan_invariant), norm_idempotent, norm_canonical, norm_same_molecule; for every oracle "
